@@ -56,7 +56,8 @@ def r18_2(ctx):
     for mod in (T, LR):
         for fi in ctx.prog.funcs_in(mod, include_nested=True):
             n += 1
-            ws = effects.external_writes(fi.node, summaries=summ)
+            # the module-level asarray(X) returns X itself for ndarrays (np.asanyarray): the result aliases the argument
+            ws = effects.external_writes(fi.node, summaries=summ, identity_calls=('asarray', 'tensor.asarray'))
             bad = False
             for w in ws:
                 node = w['node']
